@@ -29,7 +29,7 @@ LEVEL_NOTE = ('Photometry values from a finite alphabet (fixed + seed-derived); 
 RULE = ("cases: (mode, grid, n, chunk of flag vectors); executions: ~12 Fitter.fit calls per vector (base, 4 junk values, 5 limit variants, flag-4 rewrite), "
         "each compared on every model; non-trivial = distinct (mode, grid, flag vector) inside the non-singular domain that contain an ignored point, a limit or a flag-1 point")
 ASSUMPTIONS = ["finite value alphabets", "singular regressions are outside the quantifier"]
-REQUIRED_CLASSES = ['grid-of-hundreds-of-models', 'integer-typed-photometry', 'limit-exactly-on-model', 'junk-with-remove-resolved', 'limits-different-confidences', 'reflag-in-place', 'junk-under-0', 'junk-under-9', 'nonpositive-junk-under-9', 'limit-lower-violated', 'limit-upper-violated', 'limit-not-violated',
+REQUIRED_CLASSES = ['ignored-band-vs-absent-band', 'grid-of-hundreds-of-models', 'integer-typed-photometry', 'limit-exactly-on-model', 'junk-with-remove-resolved', 'limits-different-confidences', 'reflag-in-place', 'junk-under-0', 'junk-under-9', 'nonpositive-junk-under-9', 'limit-lower-violated', 'limit-upper-violated', 'limit-not-violated',
                     'conf0-equals-flag0', 'conf1-violated-1e30', 'flag4-equivalence', 'mode-2d', 'mode-3d', 'singular-counted']
 TIMEOUT = {'quick': 300, 'thorough': 1800}
 
@@ -147,7 +147,11 @@ def run_case(ctx, case, rec, d):
         spec = {'fmt': 'v1' if case['grid'] == 0 else 'v2', 'names': names, 'bands': fc.ALL_BANDS, 'apertures': ap, 'tables': tables, 'logd_step': 0.2}
         # one model whose surface brightness rises outwards: resolved at most trial distances (matters for remove_resolved)
         tables[4] = tables[4][:, :1] * np.array([1.0, 1e2, 1e4, 1e6])[None, :]
+        # ... and one that is extended in ONE band only (B3): whether it is removed depends on whether that band is used
+        if nmod == 5:
+            tables[3, 2, :] = tables[3, 2, 0] * np.array([1.0, 1e2, 1e4, 1e6])
         spec['tables'] = tables
+        absent_fitters = {}
         md = fc.build_package(d, 'pkg', spec)
         dmin, dmax = 0.5, 5.0
         fitter = fc.make_fitter(md, bands, 'power', (avlo, avhi), distance_range_kpc=(dmin, dmax), memmap=False)
@@ -231,6 +235,26 @@ def run_case(ctx, case, rec, d):
                     if not _eq_exact(b_rr, r):
                         rec.violation('ignored|remove-resolved|%s-junk' % ('nonpositive' if junk <= 0 else 'positive'), dict(sub0, junk=junk, junk_err=junk_e),
                                       {'problem': 'with remove_resolved the outputs change when ignored points carry %r' % junk, 'base_chi2': b_rr[2], 'junk_chi2': r[2]})
+            # ---- (a''') an ignored band is as good as absent: the same source without its flag-0/9 bands, fitted by a fitter that was
+            # never told about those bands, gives the same A_V, scale and chi^2 (resolved models removed or not)
+            if ign and mode == '3d' and nmod == 5 and ps == 0 and len(ign) < n:
+                keep_j = [j for j in range(n) if j not in ign]
+                key_j = tuple(keep_j)
+                if key_j not in absent_fitters:
+                    kb = [bands[j] for j in keep_j]
+                    absent_fitters[key_j] = (fc.make_fitter(md, kb, 'power', (avlo, avhi), distance_range_kpc=(dmin, dmax), memmap=False),
+                                             fc.make_fitter(md, kb, 'power', (avlo, avhi), distance_range_kpc=(dmin, dmax), memmap=False, remove_resolved=True))
+                for which_rr, (ft_all, ft_abs) in (('', (fitter, absent_fitters[key_j][0])), ('remove_resolved', (fitter_rr, absent_fitters[key_j][1]))):
+                    fv_k = tuple(fv[j] for j in keep_j)
+                    ra = _by_name(ft_all.fit(fc.make_source(fv, fl, er)), names)
+                    rb = _by_name(ft_abs.fit(fc.make_source(fv_k, fl[keep_j], er[keep_j])), names)
+                    rec.trans(2)
+                    rec.ev(len(names))
+                    rec.cls('ignored-band-vs-absent-band')
+                    same = all(np.allclose(x_, y_, rtol=1e-9, atol=1e-9, equal_nan=True) for x_, y_ in zip(ra[:3], rb[:3]))
+                    if not same:
+                        rec.violation('ignored|band-not-as-good-as-absent%s' % ('|remove-resolved' if which_rr else ''), dict(sub0, kept_bands=[bands[j] for j in keep_j]),
+                                      {'problem': 'the fit with the ignored band(s) present differs from the fit of a fitter built without them', 'with_band': [ra[1], ra[2]], 'without_band': [rb[1], rb[2]]})
             # ---- (a'') whole-number photometry handed over as python ints: a half-integer change under an ignored flag must not matter,
             # and the fit must equal the one of the same numbers given as floats
             if ps == 0 and 4 not in fv and n >= 2:
